@@ -105,6 +105,16 @@ func initSyncIntrinsics() {
 		return nil, true
 	})
 
+	// protobuf enum names come from reflection descriptors (not initialised here): an enum prints as its number
+	reg("(google.golang.org/protobuf/internal/impl.Export).EnumStringOf", func(fr *frame, a []value) (value, bool) {
+		n := a[len(a)-1]
+		if t, ok := n.(*Term); ok {
+			_ = t
+			return nil, false
+		}
+		return fmt.Sprintf("ENUM_%d", asInt64(n)), true
+	})
+
 	// sync.Pool: nothing is ever pooled (Get always builds a new object, Put drops it)
 	reg("(*sync.Pool).Get", func(fr *frame, a []value) (value, bool) {
 		st, ok := (*a[0].(*value)).(structure)
